@@ -51,6 +51,13 @@ def project(rng):
             tasks.append(S.exp_task(pkg, name, deps=["//:a"] if name == "b" else [], kind=kind))
     k = rng.randrange(2, len(deps_pool) + 1)
     chosen = rng.sample([d[0] for d in deps_pool], k)
+    if rng.random() < 0.12:
+        # two DIFFERENT tasks with the same name in different packages: their entries would collide - such a combine is refused
+        # when it is loaded (and if it ever were accepted, one entry could not stand for both outputs)
+        tasks.append(S.exp_task("m2/eval", "ea", kind="run_command"))
+        chosen = [c for c in chosen if c not in ("//m1/eval:ea", "//m2/eval:ea")]
+        chosen.insert(rng.randrange(len(chosen) + 1), "//m1/eval:ea")
+        chosen.insert(rng.randrange(len(chosen) + 1), "//m2/eval:ea")
     tasks.append(S.exp_task(cpkg, "comb", deps=chosen, kind="combine"))
     tasks.append(S.exp_task(cpkg, "peek", deps=chosen, kind="run_command"))
     tasks.append(S.exp_task("", "top", deps=["//%s:comb" % cpkg, "//%s:peek" % cpkg], kind="group"))
